@@ -59,7 +59,7 @@ def run(tier: str) -> int:
     rep = core.Report("X01", tier)
     rep.evid_dir = os.path.join(core.ROOT, "evidence_extra")
     # 1. design: vote laws, soundness of the recorded behaviour, agreement with the intended reading outside the named deviations
-    r = tlc.run("MC_Meta", "INIT Init\nNEXT Next\nINVARIANT Laws\nINVARIANT Sound\nINVARIANT Identity\nINVARIANT Arity\nINVARIANT Frames\nINVARIANT Paths\nINVARIANT Emit\n", workers=8, heap="4g")
+    r = tlc.run("MC_Meta", "INIT Init\nNEXT Next\nINVARIANT Laws\nINVARIANT Sound\nINVARIANT Identity\nINVARIANT Arity\nINVARIANT Frames\nINVARIANT Paths\nINVARIANT Loads\nINVARIANT Emit\n", workers=8, heap="4g")
     rep.add_tlc(r)
     if r.violation or not r.ok:
         raise core.MachineryError(f"PT_Meta violates {r.violation} (spec bug)\n{r.raw_tail[-1200:]}")
@@ -205,6 +205,22 @@ def run(tier: str) -> int:
                     events.append({"tid": len(events), "kind": "path", "route": route, "names": ns, "alias": al, "ids": [tk["v"] for tk in toks[k0:] if tk["t"] == "id"],
                                    "eq": bool(tb == ref and ref == tb and hash(tb) == hash(ref))})
                     meta.append(("path", {"dialect": d, "route": route, "names": ns, "alias": al}))
+    # 1a5. MySQL LOAD DATA as a two-slot builder (PT_Meta!LoadOutcome): every history of <= 4 load / into calls (names with a quote, a backslash, empty)
+    import itertools as _it
+    from pypika_tortoise.dialects.mysql import MySQLLoadQueryBuilder
+
+    n_load = 0
+    load_calls = [("load", "f1"), ("load", "f 2.csv"), ("load", ""), ("load", "a'b"), ("load", "c\\d"), ("into", "t1"), ("into", "t 2"), ("intoT", "t3")]
+    for n in range(0, 5 if tier != "quick" else 4):
+        for hist in _it.product(load_calls, repeat=n):
+            b = MySQLLoadQueryBuilder()
+            for m_, v_ in hist:
+                b = b.load(v_) if m_ == "load" else b.into(v_ if m_ == "into" else P.Table(v_))
+            toks = lexer.lex(str(b), "mysql")
+            n_load += 1
+            events.append({"tid": len(events), "kind": "loadq", "hist": [{"m": "into" if m_ == "intoT" else m_, "v": v_} for m_, v_ in hist],
+                           "ids": [tk["v"] for tk in toks if tk["t"] in ("word", "str", "id") or (tk["t"] == "punct" and tk["v"] == ",")]})
+            meta.append(("loadq", {"calls": [list(c) for c in hist]}))
     # 1b. render paths: every catalogue statement (seed, and seed + one call) through str / repr / get_sql() / get_sql(class context)
     import hashlib
 
@@ -239,7 +255,10 @@ def run(tier: str) -> int:
         for v in res.json_tagged("V"):
             kind, what = meta[v["tid"]]
             e = events[v["tid"]]
-            if kind == "path":
+            if kind == "loadq":
+                rep.discrepancy([["load-data"] + [c[0] for c in what["calls"]]], dict(what, recorded_outcome=v["want"], observed=e["ids"]),
+                                what="the LOAD DATA statement differs from the recorded two-slot rule")
+            elif kind == "path":
                 rep.discrepancy([["table-path", what["dialect"], what["route"], len(what["names"]), bool(what["alias"])]], dict(what, recorded_outcome=v["want"], observed=e["ids"], equal_to_kw_obj=e["eq"]),
                                 what="the FROM clause / equality of a table named by a path differs from the recorded route-independent rule")
             elif kind == "group":
@@ -339,7 +358,7 @@ def run(tier: str) -> int:
     rep.traces = len(events) + n_mut + len(sel_events)
     rep.evaluations = rep.traces
     rep.distinct = {json.dumps(m[1], sort_keys=True) for m in meta}
-    rep.extra.update({"select_list_programs": len(sel_events), "render_path_statements": n_paths, "window_frame_calls": n_window, "table_path_events": n_path, "group_by_histories": n_group, "is_aggregate_trees": len(trees), "empty_criterion_folds": 2 * len(folds), "mutable_mode_chains": n_mut,
+    rep.extra.update({"select_list_programs": len(sel_events), "render_path_statements": n_paths, "window_frame_calls": n_window, "load_data_histories": n_load, "table_path_events": n_path, "group_by_histories": n_group, "is_aggregate_trees": len(trees), "empty_criterion_folds": 2 * len(folds), "mutable_mode_chains": n_mut,
                       "mutable_model_states": rm.distinct})
     rep.sample({"tree": trees[0], "is_aggregate": events[0]["obs"]})
     rep.rule = ("behaviours outside the property list: is_aggregate of every tree of MC_Meta (depth <= 2 over leaves of every vote) vs PT_Meta!IsAgg; "
